@@ -275,6 +275,16 @@ Theorem C04_pre_proposal002_refuted :
 Proof. exact pre002_refuted. Qed.
 Print Assumptions C04_pre_proposal002_refuted.
 
+(* the gate is Proposal002 and nothing later: in the window {002 active, 003 not yet} the headline theorem
+   applies to the code as it is ([p002 s = g002 fork_window = true]); an implementation that gates the journalled
+   balance write on Proposal003 is the model with [p002 s = false] there, and is refuted by a concrete history *)
+Theorem C04_fork_window_gate_refuted :
+  g002 fork_window = true /\ g003 fork_window = false /\
+  exists s body q, good s /\ p002 s = g003 fork_window /\ Forall (item_ok true false) body /\
+                   observe q (after_revert body s) <> observe q s.
+Proof. exact fork_window_gate_refuted. Qed.
+Print Assumptions C04_fork_window_gate_refuted.
+
 Theorem C04_suicide_reencodes_refuted :
   exists s body q, good s /\ p002 s = true /\ Forall (item_ok false false) body /\
                    observe q (after_revert body s) <> observe q s.
